@@ -128,10 +128,20 @@ func (s *sess) explore(j *Job, o exploreOpt) (n int) {
 		}
 	})
 	if err != nil {
+		// the instrumented code did not get through a job (it hangs, crashes or leaves the protocol): the
+		// schedule-level correspondence is not established - a broken obligation.  What is left is the
+		// model-independent search for a failing input on the uninstrumented Writer, so that the report
+		// carries one whenever the black-box scenarios can produce it.
 		fmt.Fprintln(os.Stderr, "diodeh: runner failed: "+err.Error())
 		s.b.Cleanup()
+		s.c.Res.Broken = append(s.c.Res.Broken, "the instrumented diode code did not complete a job (schedule-level correspondence not established): "+err.Error())
+		s.exhaustive = false
+		if s.c.Replay == "" {
+			blackBox(s.c, s.prop)
+		}
+		s.finish(ruleCommon + "; INCOMPLETE: the exploration stopped at a job the instrumented code did not complete; the black-box scenarios were run")
 		s.c.Finish()
-		os.Exit(3)
+		os.Exit(0)
 	}
 	s.scheds += nn
 	cfg := fmt.Sprintf("%s P=%d W=%d size=%d", j.Level, len(j.Msgs), len(j.Msgs[0]), j.Size)
